@@ -143,6 +143,7 @@ pub fn parse_flags(s: &str) -> Flags {
             "screen" => f.screen = true,
             "framing" => f.framing = true,
             "flush" => f.flush = true,
+            "complete" => f.complete = true,
             "all" => {
                 f.dispatch = true;
                 f.editor = true;
